@@ -126,3 +126,80 @@ def merge(rng, scripts: list[list[str]]) -> list[str]:
         if idx[i] >= len(scripts[i]):
             live.remove(i)
     return out
+
+
+# ---------------------------------------------------------------------------
+# hostile / lossy link: operators on single lines (C02 / C03)
+# ---------------------------------------------------------------------------
+FIELD_VALUES = {
+    "valid": {0: ["0", "1", "9", "10", "99", "100", "254", "255"], 1: ["0", "1", "7", "254", "255"],
+              2: ["0", "1", "2", "3", "4"], 3: ["0", "1"], 4: ["0", "2", "3", "4", "19", "22", "47", "255", "1000"]},
+    "boundary": {0: ["256", "-1", "254", "255"], 1: ["256", "-1", "255", "254"], 2: ["5", "-1", "4"],
+                 3: ["2", "-1", "1"], 4: ["-1", "256", "65536", "-2147483649"]},
+}
+ODD_INTS = [" 1", "1 ", "\t1", "+1", "1_0", "007", "-0", "１", "٣", "00", "+0"]
+BAD_INTS = ["", "abc", "1a", "1.0", "1e3", "0x10", "1.5", "--1", "1;", "None", "true", "١٢x", "½", " "]
+HUGE_INTS = ["1" + "0" * 30, "9" * 400, "7" * 5000, "-" + "3" * 4500]
+ABSURD = {
+    0: ["abc", "", "nan", "inf", "-inf", "1e999", "-3", "150", "12.5", "0x10", "٥", "1e2", " 7", "1_0", "99.5", "101"],
+    22: ["xyz", "", "1.5", "9" * 30, "-1", "1e3", "٣", " 4", "+5", "1_0", "0x1"],
+    2: ["garbage", "", "1..2", "2.2.0-beta", "v2.2", "2", ".", "2.x", "٢.٢"],
+    32: ["x", "500", ""],
+}
+
+
+def field_mutation(rng, parts: list[str]) -> tuple[list[str], str]:
+    """Replace one numeric field by a value of some class. Returns (parts, tag)."""
+    parts = list(parts)
+    i = rng.randrange(min(5, len(parts)))
+    cls = rng.choice(["boundary", "odd", "bad", "huge", "valid"])
+    if cls == "boundary":
+        parts[i] = rng.choice(FIELD_VALUES["boundary"][i])
+    elif cls == "valid":
+        parts[i] = rng.choice(FIELD_VALUES["valid"][i])
+    elif cls == "odd":
+        parts[i] = rng.choice(ODD_INTS)
+    elif cls == "bad":
+        parts[i] = rng.choice(BAD_INTS)
+    else:
+        parts[i] = rng.choice(HUGE_INTS)
+    return parts, f"field{i}-{cls}"
+
+
+def hostile(rng, line: str, nxt: str | None = None) -> tuple[str, str]:
+    """Apply one link-fault operator to a well-formed line."""
+    body = line.rstrip("\n")
+    r = rng.random()
+    if r < 0.25:
+        k = rng.randint(0, len(body))
+        return body[:k] + "\n", "truncated"
+    if r < 0.35 and nxt is not None:
+        return body + nxt, "merged"  # newline lost: two lines arrive as one
+    if r < 0.65:
+        parts, tag = field_mutation(rng, body.split(";"))
+        return ";".join(parts) + "\n", tag
+    if r < 0.75:
+        parts = body.split(";")
+        k = rng.randint(0, 8)
+        parts = parts[:k] if k < len(parts) else parts + ["x"] * (k - len(parts))
+        return ";".join(parts) + "\n", f"nfields-{min(k, 8)}"
+    if r < 0.85:
+        k = rng.randint(0, len(body))
+        junk = rng.choice(["\x00", "\x7f", "�", ";", ";;", "\r", " ", "‮", "é", "\x1b[0m"])
+        return body[:k] + junk + body[k:] + "\n", "inserted"
+    if r < 0.93:
+        return body + rng.choice(["", " ", "\r", "  \t", "\r\n"]) + rng.choice(["\n", ""]), "terminator"
+    return rng.choice(["", "\n", ";", ";;;;;", ";;;;;\n", "invalid", "\x00\n", " \n", "255\n", "1;2\n",
+                       "1;2;3\n", "1;2;3;0\n", "1;2;3;0;4\n"]), "literal"
+
+
+def absurd_payload(rng, proto: str, n: int) -> tuple[str, str]:
+    """A well-formed line whose payload the handler converts: battery, heartbeat, version, pre-sleep."""
+    kinds = [0, 2]
+    if proto in PROTOS_2X:
+        kinds.append(22)
+    if proto == "2.2":
+        kinds.append(32)
+    t = rng.choice(kinds)
+    node = 0 if t == 2 else n
+    return f"{node};255;3;0;{t};{rng.choice(ABSURD[t])}\n", f"absurd-type{t}"
